@@ -6,7 +6,8 @@
 
   (A) about the REGENERATED table `Gts.Gen.Cli` (go2lean reads every cmd/gts/*.go that calls
       `TryCache`, and io.go, on every run): every declared option and positional reaches the
-      payload (`payload_complete`), every cached command commits exactly before its one
+      payload (`payload_complete`), the key of a secondary input file is the digest of its raw
+      bytes (`secondary_digest_raw`), every cached command commits exactly before its one
       successful return (`commit_last`), `Close` removes what was not committed
       (`close_removes_uncommitted`).  They are closed by `decide`: a changed source changes the
       table and the kernel re-checks them.
@@ -48,6 +49,26 @@ theorem payload_complete : ∀ c ∈ commands, ∀ d ∈ c.decls, covered c d = 
 
 /-- the same as a list: nothing is uncovered -/
 theorem payload_complete_list : commands.flatMap uncovered = [] := by decide
+
+/-- **The key of a secondary input is the digest of its RAW content** (generated table): the
+payload variables bound to `h.Sum(nil)` are exactly `featsum`, `hostSum`, `guestSum`, `querySum`;
+each is read by a payload tuple; everything written into the hash between the preceding
+`h.Reset()` and the `Sum` is either the bytes of the file opened from a declared positional
+(`attach(h, f)` with `f, err := os.Open(*V)`: every byte the parser reads goes through the hash)
+or the literal argument itself (`h.Write([]byte(*V))`) — nothing parsed, nothing derived; and
+every declared variable that is opened as a file is hashed that way.  (A key computed from the
+PARSED guest — residues only — lets two guest files that differ in annotation share an entry.) -/
+theorem secondary_digest_raw :
+    (commands.filterMap fun c =>
+        if c.digests.isEmpty then none else some (c.name, c.digests.map (·.1))) =
+      [("annotate", ["featsum"]), ("infix", ["hostSum"]), ("insert", ["guestSum"]),
+       ("search", ["querySum"])] ∧
+    (∀ c ∈ commands, ∀ d ∈ c.digests,
+      d.2 ≠ [] ∧ (c.payload.any fun t => t.direct.contains d.1) = true ∧
+      ∀ f ∈ d.2, (f.1 = "file" ∨ f.1 = "literal") ∧
+        (c.decls.any fun x => x.var == f.2 && x.cls == "pos" && x.kind == "String") = true) ∧
+    (∀ c ∈ commands, ∀ x ∈ c.decls, x.uses.contains "os.Open" = true →
+      (c.digests.any fun d => d.2.contains ("file", x.var)) = true) := by decide
 
 /-- every cached command has the `--no-cache` switch and the ``-o`, `--output`` option, and every
 payload carries the command name and the version first -/
